@@ -108,7 +108,7 @@ func genXport(r *rng, seed uint64, focus, arm string) *plan.Plan {
 		// connections; the server closes them while they idle (or restarts);
 		// a lone call follows.  The retry budget for reused connections is
 		// finite, the number of stale connections is not.
-		kind := []string{"tcp", "tls", "tcp", "udp"}[r.intn(4)]
+		kind := []string{"tcp", "tls", "tcp", "udp", "quic"}[r.intn(5)]
 		u := upSpec(r, 0, kind)
 		xp.Upstreams = []plan.UpstreamSpec{u}
 		xp.Net.UpLatUs = [2]int64{50, int64(r.rng(100, 3000))}
@@ -128,6 +128,12 @@ func genXport(r *rng, seed uint64, focus, arm string) *plan.Plan {
 		}
 		ev := 1400 + hold + 8*xp.Net.UpLatUs[1] + r.i64(10_000, 3_000_000)
 		xp.ServerEvents = []plan.ServerEvent{{Up: 0, AtUs: ev, Kind: []string{"close_idle_conns", "close_idle_conns", "crash_restart"}[r.intn(3)]}}
+		if kind == "quic" {
+			// the one shared connection is closed by the server while idle, with
+			// notice (a crash would only show at the 30 s idle time-out)
+			xp.ServerEvents[0].Kind = "close_idle_conns"
+			xp.IdleMs = 0
+		}
 		for i := 0; i < r.rng(1, 3); i++ {
 			tok := fmt.Sprintf("t%d", n+i)
 			c := plan.XCall{Idx: n + i, Up: 0, AtUs: ev + r.i64(1_200_000, 6_000_000) + int64(i)*3_000_000, ID: uint16(r.u64()), Token: tok, Type: 1, DeadlineUs: 6_000_000}
